@@ -1,12 +1,13 @@
 """C03: generate, compile and run the C test driver around a wat2c-generated module.
 
-The driver reads one call per line on stdin (`<row index> <mode> <hex arg>*`), performs every call in a forked
-child (so that abort(), SIGFPE/SIGSEGV and sanitizer exits of one call do not end the run) and prints one line per call:
+The driver reads one call per line on stdin (`<row index> <mode> <hex arg>*`), performs every call in-process under
+sigsetjmp with handlers for SIGABRT/SIGFPE/SIGSEGV/SIGILL/SIGBUS (fork per call is too slow here), with the sanitizer in
+recover mode and its reports (fd 2) captured per call, and prints one line per call:
     v <hex64>            result bit pattern (i32/f32 in the low 32 bits); `v -` for void
     ... m <fnv64>        appended in mode m: FNV-1a of the whole linear memory after the call
-    sig <NAME>           the child was killed by a signal (ABRT = wat2c's trap convention: abort())
-    ub <class>           the undefined-behaviour sanitizer stopped the call
-    exit <code>          any other abnormal exit
+    sig <NAME>           the call raised a signal (ABRT = wat2c's trap convention: abort())
+    ub <class>           the undefined-behaviour sanitizer reported UB during the call (first report)
+In modes m / g the memory is reset to the pattern (and <prefix>_memory_size to the initial pages) before the call.
 The linear memory handed to the module by <prefix>_memory_init (the host hook appbuild's native-host.cpp provides)
 is an mmap'ed region between two PROT_NONE guard pages, filled with the same pattern the wazero side uses.
 """
@@ -22,7 +23,8 @@ DRIVER_HEAD = r"""
 #include <string.h>
 #include <unistd.h>
 #include <signal.h>
-#include <sys/wait.h>
+#include <setjmp.h>
+#include <fcntl.h>
 #include <sys/mman.h>
 #include "mod.h"
 
@@ -32,7 +34,7 @@ static uint8_t *MEM;
 void %(prefix)s_memory_init(uint8_t **pp, int32_t *pages) { *pp = MEM; *pages = PAGES; }
 
 typedef union { uint64_t u; int32_t i32; int64_t i64; float f32; double f64; } A;
-static char OUT[128]; static int OUTN;
+static char OUT[160]; static int OUTN;
 static void outv(uint64_t v) { OUTN = snprintf(OUT, sizeof OUT, "v %%016llx", (unsigned long long)v); }
 static void outvoid(void) { OUTN = snprintf(OUT, sizeof OUT, "v -"); }
 static uint64_t fnv(void) { uint64_t h = 14695981039346656037ULL; for (size_t i = 0; i < (size_t)PAGES * 65536; i++) { h ^= MEM[i]; h *= 1099511628211ULL; } return h; }
@@ -58,13 +60,26 @@ static const char *ubclass(const char *e) {
   return "other";
 }
 
+static sigjmp_buf JB;
+static void onsig(int s) { siglongjmp(JB, s); }
+
 int main(void) {
   size_t sz = (size_t)MAXPAGES * 65536;
   uint8_t *base = mmap(NULL, sz + 2 * 65536, PROT_NONE, MAP_PRIVATE | MAP_ANONYMOUS, -1, 0);
   if (base == MAP_FAILED) { puts("INFRA mmap"); return 2; }
   MEM = base + 65536;
   if (mprotect(MEM, sz, PROT_READ | PROT_WRITE)) { puts("INFRA mprotect"); return 2; }
-  for (size_t i = 0; i < sz; i++) MEM[i] = (uint8_t)((i * 167 + 13) ^ (i >> 8));
+  uint8_t *PAT = malloc(sz);
+  for (size_t i = 0; i < sz; i++) PAT[i] = (uint8_t)((i * 167 + 13) ^ (i >> 8));
+  memcpy(MEM, PAT, sz);
+  /* sanitizer reports (recover mode) go to fd 2: point it at a scratch file we can read back */
+  char tn[] = "/tmp/c03errXXXXXX"; int efd = mkstemp(tn); unlink(tn);
+  if (efd < 0) { puts("INFRA mkstemp"); return 2; }
+  dup2(efd, 2);
+  struct sigaction sa; memset(&sa, 0, sizeof sa); sa.sa_handler = onsig; sa.sa_flags = SA_NODEFER;
+  static char altstack[1 << 16]; stack_t ss = { altstack, 0, sizeof altstack }; sigaltstack(&ss, NULL); sa.sa_flags |= SA_ONSTACK;
+  int sigs[] = { SIGABRT, SIGFPE, SIGSEGV, SIGILL, SIGBUS, SIGALRM };
+  for (unsigned i = 0; i < sizeof sigs / sizeof *sigs; i++) sigaction(sigs[i], &sa, NULL);
   %(prefix)s_init();
   char line[512];
   while (fgets(line, sizeof line, stdin)) {
@@ -74,38 +89,32 @@ int main(void) {
     char mode = *p ? *p++ : 'n';
     int n = 0;
     while (n < 4) { while (*p == ' ') p++; if (*p == '\n' || !*p) break; a[n++].u = strtoull(p, &p, 16); }
-    int pe[2]; if (pipe(pe)) { puts("INFRA pipe"); return 2; }
-    fflush(stdout);
-    pid_t pid = fork();
-    if (pid < 0) { puts("INFRA fork"); return 2; }
-    if (pid == 0) {
-      close(pe[0]); dup2(pe[1], 2);
-      alarm(10);
+    if (mode != 'n') { memcpy(MEM, PAT, sz); %(resetsize)s }
+    off_t e0 = lseek(efd, 0, SEEK_END);
+    int s = sigsetjmp(JB, 1);
+    if (s == 0) {
+      alarm(20);
       docall(k, a);
+      alarm(0);
       if (mode == 'm') OUTN += snprintf(OUT + OUTN, sizeof OUT - OUTN, " m %%016llx", (unsigned long long)fnv());
-      OUT[OUTN++] = '\n';
-      if (write(1, OUT, OUTN) != OUTN) _exit(9);
-      _exit(0);
-    }
-    close(pe[1]);
-    char err[2048]; size_t en = 0; ssize_t r;
-    while ((r = read(pe[0], err + en, sizeof err - 1 - en)) > 0) en += (size_t)r;
-    err[en] = 0; close(pe[0]);
-    int st = 0; waitpid(pid, &st, 0);
-    if (WIFEXITED(st) && WEXITSTATUS(st) == 0) continue;
-    if (WIFSIGNALED(st)) {
-      int s = WTERMSIG(st);
+    } else {
+      alarm(0);
       const char *nm = s == SIGABRT ? "ABRT" : s == SIGFPE ? "FPE" : s == SIGSEGV ? "SEGV" : s == SIGILL ? "ILL" : s == SIGBUS ? "BUS" : s == SIGALRM ? "ALRM" : "OTHER";
-      if (strstr(err, "runtime error: ")) printf("ub %%s\n", ubclass(err)); else printf("sig %%s\n", nm);
-    } else if (strstr(err, "runtime error: ")) printf("ub %%s\n", ubclass(err));
-    else printf("exit %%d\n", WEXITSTATUS(st));
+      OUTN = snprintf(OUT, sizeof OUT, "sig %%s", nm);
+    }
+    off_t e1 = lseek(efd, 0, SEEK_END);
+    if (e1 > e0) {   /* the sanitizer reported undefined behaviour during this call: that is the outcome */
+      char err[1024]; ssize_t r = pread(efd, err, sizeof err - 1, e0); err[r > 0 ? r : 0] = 0;
+      OUTN = snprintf(OUT, sizeof OUT, "ub %%s", ubclass(err));
+    }
+    OUT[OUTN] = 0; puts(OUT);
   }
   return 0;
 }
 """
 
 
-def driver_source(rows, prefix="app", pages=1, maxpages=1):
+def driver_source(rows, prefix="app", pages=1, maxpages=1, has_memory=True):
     out = [DRIVER_HEAD % {"prefix": prefix, "pages": pages, "maxpages": maxpages}]
     out.append("static void docall(int k, A *a) {\n  switch (k) {")
     for i, r in enumerate(rows):
@@ -123,14 +132,14 @@ def driver_source(rows, prefix="app", pages=1, maxpages=1):
             body = "double r = %s; outv(d2u(r));" % call
         out.append("  case %d: { %s } break;" % (i, body))
     out.append("  default: OUTN = snprintf(OUT, sizeof OUT, \"bad-row\");\n  }\n}")
-    out.append(DRIVER_TAIL % {"prefix": prefix})
+    out.append(DRIVER_TAIL % {"prefix": prefix, "resetsize": ("%s_memory_size = PAGES;" % prefix) if has_memory else ""})
     return "\n".join(out)
 
 
 FLAVOURS = {
     "gcc-O0": ["gcc", "-O0", "-w"],
-    "gcc-O0-ubsan": ["gcc", "-O0", "-w", "-fsanitize=undefined,float-cast-overflow", "-fno-sanitize-recover=all"],
-    "clang-O2-ubsan": ["clang", "-O2", "-w", "-fsanitize=undefined,float-cast-overflow", "-fno-sanitize-recover=all"],
+    "gcc-O0-ubsan": ["gcc", "-O0", "-w", "-fsanitize=undefined,float-cast-overflow"],
+    "clang-O2-ubsan": ["clang", "-O2", "-w", "-fsanitize=undefined,float-cast-overflow"],
     "gcc-O2": ["gcc", "-O2", "-w"],
 }
 
